@@ -285,7 +285,10 @@ static int apply(qtreetbl_t *t, model_t *m, const op_t *op, int check, const cha
     switch (op->kind) {
         case OP_PUT: {
             void *kb = fresh(KEY[op->k].b, KEY[op->k].n), *vb = fresh(VAL[op->v].b, VAL[op->v].n);
+            static char nothing[1];    /* the empty value comes as (NULL, 0) for even keys and as (pointer, 0) for odd ones */
+            if (VAL[op->v].n == 0 && (op->k & 1)) vb = nothing;
             bool r = is_strcfg() ? t->put(t, kb, vb, VAL[op->v].n) : t->putobj(t, kb, KEY[op->k].n, vb, VAL[op->v].n);
+            if (vb == nothing) vb = NULL;
             scribble(kb, KEY[op->k].n); scribble(vb, VAL[op->v].n); n_scribbled += 2;
             if (check && !r) vc_viol("map:put-failed", "%s: put returned false", after);
             m->present[op->k] = 1; m->val[op->k] = op->v;
